@@ -79,6 +79,18 @@ pub fn run_knn(out: &mut Out, rng: &mut Rng, thorough: bool) {
                 }
             }
         }
+        // coincident particles (distance exactly 0 between different particles): a particle never is its own neighbour
+        if rep_dup(rng) && pts.len() >= 3 {
+            let a = rng.below(pts.len() as u64) as usize;
+            let b = (a + 1 + rng.below(pts.len() as u64 - 1) as usize) % pts.len();
+            pts[b] = pts[a];
+            if rng.bool() {
+                let c = (b + 1) % pts.len();
+                if c != a {
+                    pts[c] = pts[a];
+                }
+            }
+        }
         if pts.len() < 2 {
             continue;
         }
@@ -107,6 +119,10 @@ pub fn run_knn(out: &mut Out, rng: &mut Rng, thorough: bool) {
         let res = res.unwrap_or_else(|e| e);
         out.rec("knn", &format!("{}_{}", bname, fam_pts), &input, &res);
     }
+}
+
+fn rep_dup(rng: &mut Rng) -> bool {
+    rng.chance(0.2)
 }
 
 fn sph(s: &Sphere) -> String {
